@@ -197,6 +197,8 @@ def jobs(tier, seed):
     add('dobs', kinds=['range'])
     add('dobs', kinds=['strided', 'irregular'])          # different configuration subsets in one file
     add('dobs', kinds=['replicas', 'range'])
+    add('dobs', kinds=['rangelike', 'rangelike2'])
+    add('pobs', kinds=['rangelike', 'rangelike'], sepmode='int')
     add('dobs', kinds=['multi'])
     add('dobs', kinds=['covmix', 'range', 'cov'])
     if tier == 'thorough':
